@@ -1,7 +1,7 @@
 """R14 ZONE-PAIR, R15 LEX-NORM, R32 ORDER-AGREE (C02, C04, C06, C19, C20)."""
 import ast
 
-from ..model import npos, AnalysisError, U, walk_no_nested, parent, ancestors
+from ..model import clone,  npos, AnalysisError, U, walk_no_nested, parent, ancestors
 
 KEY_GETTERS = ("get_calendar_date", "get_ordinal_date", "get_week_date",
                "get_second_of_day", "get_hour_minute_second")
@@ -302,6 +302,44 @@ def r14_zone_pair(ctx):
                 f.loc(r), U(v)))
             continue
         ds = defs_before(f, v.id, r)
+        # a plain copy is the shift by nothing: admitted on a path that has
+        # found the two offsets equal, hours and minutes
+        from ..flow import path_conds as _pc14
+
+        from ..flow import single_def as _sd14
+
+        def res(e_):
+            """text of e_ with a local that only renames an attribute of
+            self (`src = self._time_zone`) replaced by what it names"""
+            class R_(ast.NodeTransformer):
+                def visit_Name(s_, n_):
+                    v_ = _sd14(f.node, n_.id)
+                    if isinstance(v_, ast.Attribute) and U(v_).startswith(
+                            selfn + "."):
+                        return clone(v_)
+                    return n_
+            return U(R_().visit(clone(e_)))
+
+        def same_offset_copy(d_):
+            if U(d_.value) != "%s._copy()" % selfn:
+                return False
+            eqs = set()
+            todo = list(_pc14(d_))
+            while todo:
+                t_, pol_ = todo.pop()
+                if isinstance(t_, ast.BoolOp) and isinstance(
+                        t_.op, ast.And) and pol_:
+                    todo += [(x_, True) for x_ in t_.values]
+                elif pol_ and isinstance(t_, ast.Compare) and len(
+                        t_.ops) == 1 and isinstance(t_.ops[0], ast.Eq):
+                    eqs.add(frozenset((res(t_.left),
+                                       res(t_.comparators[0]))))
+            return all(frozenset(("%s.%s" % (dest, a_),
+                                  "%s._time_zone.%s" % (selfn, a_))) in eqs
+                       for a_ in ("_hours", "_minutes"))
+        copies = [d_ for d_ in ds if same_offset_copy(d_)]
+        if copies and len(ds) - len(copies) == 1:
+            ds = [d_ for d_ in ds if d_ not in copies]
         shift_ok, orient, why = False, None, "no shifting assignment"
         if len(ds) == 1 and isinstance(ds[0].value, ast.BinOp) and \
                 isinstance(ds[0].value.op, ast.Add):
@@ -311,7 +349,7 @@ def r14_zone_pair(ctx):
                 recv, delta = delta, recv
             if U(recv) == selfn and isinstance(delta, ast.BinOp) and \
                     isinstance(delta.op, ast.Sub):
-                orient = (U(delta.left), U(delta.right))
+                orient = (res(delta.left), res(delta.right))
                 shift_ok = orient == (dest, "%s._time_zone" % selfn)
                 why = "shift is %s - %s" % orient
         rep.check(shift_ok, rule, key + ":shift", f.loc(r),
